@@ -208,5 +208,30 @@ elif m in ("refactor1", "refactor2"):
         elif sync:
             self.state._bump_changed(0, sync)
 """)
+elif m == "x1":
+    # lock identity: the sync manager caches the lock object at construction; forget() later re-binds state.lock (setattr)
+    sub("sync/manager.py","""        self.state = state
+        self.providers: Tuple['Provider', 'Provider'] = providers""","""        self.state = state
+        self._lock = state.lock
+        self.providers: Tuple['Provider', 'Provider'] = providers""")
+    sub("sync/manager.py","""        with self.state.lock:
+            sync: SyncEntry = self.state.change(self.aging)""","""        with self._lock:
+            sync: SyncEntry = self.state.change(self.aging)""")
+    sub("cs.py","""        with self.state.lock:
+            self.state.forget()""","""        with self.state.lock:
+            import threading
+            setattr(self.state, "lock", threading.RLock())
+            self.state.forget()""")
+elif m == "x2":
+    # lock identity: every event manager works on a shallow copy of the state (shares the lock object and, until forget(), the indexes)
+    sub("event.py","""        self.state: 'SyncState' = state""","""        import copy
+        self.state: 'SyncState' = copy.copy(state)""")
+elif m == "x3":
+    # lock identity: start() gives the state a fresh lock through the instance dictionary ("fresh lock for fresh threads")
+    sub("cs.py","""        self.nmgr.notify(Notification(SourceEnum.SYNC, NotificationType.STARTED, None))
+        self.smgr.start(""","""        import threading
+        self.state.__dict__["lock"] = threading.RLock()
+        self.nmgr.notify(Notification(SourceEnum.SYNC, NotificationType.STARTED, None))
+        self.smgr.start(""")
 else:
     raise SystemExit("unknown "+m)
